@@ -198,7 +198,7 @@ class LineRes:
         self.flags = []
         self.detail = ""
         if resline.startswith("R "):
-            m = re.match(r"R K=(\d) O=(\d) F=(\S*) \| ?(.*)", resline)
+            m = re.match(r"R K=(\d) O=(\d) F=(.*?) \| ?(.*)", resline)
             if not m:
                 self.bad = True; self.detail = resline
                 return
